@@ -384,7 +384,7 @@ def run(P, R, tier):
     c12.first_char(P, Remap(R, {'C12.GRD.1': 'C09.GRD.3'}), pf, pout, pposv, lv_)
     # every announcement makes a fresh request: the address and port echoed are those of this announcement
     from . import c04, c05
-    c04.serial_writers(P, Remap(R, {'C04.WMC.2': 'C09.WMC.4'}))
+    c04.serial_writers(P, Remap(R, {'C04.WMC.2': 'C09.WMC.4'}), c04.reader_is_canonical(P))
     # nothing is formatted from a request that has been released
     from .. import uar
     uar.check(P, R, 'C09.UAR.1')
